@@ -244,6 +244,39 @@ def gen_cases(rng, n_pairs, n_setp):
         for k in OPS:
             cases.append(Case(k, g, O, T, family=fam, label='tiny-second/' + where))
             cases.append(Case(k, g, T, O, family=fam, label='tiny-first/' + where))
+    # grid sizes > 1 (and the scaled-down twin) with OFF-grid input: a vertex of one operand within half a cell of a long, nearly
+    # axis-parallel edge of the other, so that its hot pixel centre can lie outside the bounding box of that edge
+    for i in range(max(6, n_pairs // 4)):
+        g = float(rng.choice([10, 10, 100, 1000, 0.1, 0.01]))
+        L_ = rng.randint(5, 12)                                    # edge length in cells
+        y0 = (rng.randint(0, 3) + rng.choice([0.4, 0.42, 0.45, 0.3])) * g
+        y1 = y0 + rng.choice([0.2, 0.15, 0.1, 0.25]) * g            # rise of the edge: less than a cell
+        x0 = rng.choice([0.0, 0.37, -2.6]) * g; x1 = x0 + L_ * g
+        top = y1 + rng.randint(6, 12) * g
+        A = [(x0, y0), (x1, y1), (x1, top), (x0, top), (x0, y0)]
+        t = rng.choice([0.7, 0.5, 0.31, 0.83])
+        vx = x0 + (x1 - x0) * t + rng.choice([0.0, 0.13, -0.21]) * g
+        ve = y0 + (y1 - y0) * (vx - x0) / (x1 - x0)                 # the edge at vx
+        vy = ve + rng.choice([0.0, 0.0, 0.05, -0.05, 0.2, -0.2]) * g
+        depth = rng.randint(8, 16) * g
+        B = [(vx, vy), (vx + rng.randint(3, 6) * g, vy - depth), (vx - rng.randint(3, 6) * g, vy - depth - 0.3 * g), (vx, vy)]
+        tf = rng.choice(['id', 'swap', 'flipy', 'flipx'])
+        def T(p, tf=tf):
+            x, y = p
+            if tf == 'swap': return (y, x)
+            if tf == 'flipy': return (x, -y)
+            if tf == 'flipx': return (-x, y)
+            return p
+        PA, PB = ('PG', [[T(p) for p in A]]), ('PG', [[T(p) for p in B]])
+        lab = 'near-axis-edge/g=%g' % g
+        for k in OPS:
+            cases.append(Case(k, g, PA, PB, family='near-axis', label=lab))
+        cases.append(Case('UNI', g, PB, PA, family='near-axis', label=lab + '/swap'))
+        cases.append(Case('DIF', g, PB, PA, family='near-axis', label=lab + '/swap'))
+        cases.append(Case('UUP', g, ('GC', [PA, PB]), family='near-axis', label=lab))
+        for fl in (0, 2):
+            cases.append(Case('SETP', g, ('MPG', [PA[1], PB[1]]) if vy < ve else ('GC', [PA, PB]), flags=fl, family='near-axis', label=lab))
+        cases.append(Case('SETP', g, ('GC', [PA, ('LS', PB[1][0][:3])]), flags=0, family='near-axis', label=lab))
     for i in range(n_setp):
         full = rng.random() < 0.4
         A = L.gen_geom(rng, None, rng.choice([4, 8, 12]))
@@ -466,7 +499,7 @@ def check_histories(ctx, r, hists, d):
                     items.append(dict(hc=hc, kind='overlay', g=hc['grids'][-1], flags=0, prev=cur[0], B=cur[1], res=geom, gv=t[1] == 'v=1', prec=t[2][3:]))
         except Exception:
             hc['out'] = 'UNPARSABLE ' + o[:150]
-    # inputs of each item must be valid by the exact model (pointwise steps accept anything)
+    # inputs of each item must be valid by the exact model
     need = []
     for it in items:
         try:
@@ -515,7 +548,7 @@ def check_histories(ctx, r, hists, d):
         if it['ints'] is None: continue
         inputs_valid = all(r.valid_cache.get(L.text_int(g)) == '1' for g in it['ints'][:-1])
         pointwise = it['kind'] == 'step' and (it['flags'] & 1)
-        if not inputs_valid and not pointwise:
+        if not inputs_valid:          # the property quantifies over valid inputs, also for the pointwise mode
             d['skipped']['history step on an input that is not valid'] = d['skipped'].get('history step on an input that is not valid', 0) + 1
             seen_bad.add(id(hc)); continue
         key = 'HIST-' + (it['kind'] if it['kind'] == 'overlay' else 'step%d' % it['flags'])
@@ -675,6 +708,8 @@ def run(ctx):
             ctx.broken.append(dict(kind='generator', name='distribution', detail='no evaluated call ' + k))
     if nk == 0:
         ctx.broken.append(dict(kind='generator', name='distribution', detail='no KEEP_COLLAPSED case with a fully collapsed element'))
+    if d['family'].get('near-axis', 0) == 0:
+        ctx.broken.append(dict(kind='generator', name='distribution', detail='no evaluated case of the near-axis-edge family'))
     if d['family'].get('tiny', 0) == 0:
         ctx.broken.append(dict(kind='generator', name='distribution', detail='no evaluated case of the tiny-operand family'))
     for k in ('coarse-finer-nondivisor', 'finer-coarser', 'equal'):
